@@ -69,7 +69,7 @@ fn drive(args: &[String]) {
     "c18" => c18::drive(vectors, seed, out, thorough),
     "c12" => c12::drive(vectors.expect("--vectors"), out),
     "c13" => c13::drive(seed, out, thorough),
-    "c11" => c11::drive(vectors.expect("--vectors"), seed, out, thorough),
+    "c11" => c11::drive(vectors.expect("--vectors"), opt(args, "--vectors2"), seed, out, thorough),
     "testrun" => testrun::drive(vectors.expect("--vectors"), out),
     "strcase" => strcase::drive(vectors.expect("--vectors"), out),
     "c08" => c08::drive(vectors.expect("--vectors"), seed, out, thorough),
